@@ -21,12 +21,26 @@ def run(pid):
     v = Verdict(pid)
     build_harness("release")
     gs = G_QUICK
-    consts = "CONSTANTS\n NFrames = %d\n FrameLen = 6\n HeaderLen = 4\n GarbageStrings <- cG\n Defects <- cD\n"
+    consts = "CONSTANTS\n NFrames = %d\n FrameLen = 6\n HeaderLen = 4\n GarbageStrings <- cG\n Defects <- cD\n MaxFaults = 0\n"
+    INV = "INVARIANT InOrderSubsequence OnlyWrittenFrames SyncFreeGarbageCostsNothing ErrorsPropagated LossesAreReported\n"
     mp = write_text(os.path.join(wd, "MCSS.tla"), "---- MODULE MCSS ----\nEXTENDS StreamSync\ncG == %s\ncD == {}\n====\n" % gtla(gs))
-    cp = write_text(os.path.join(wd, "MCSS.cfg"), consts % 3 + "SPECIFICATION Spec\nINVARIANT InOrderSubsequence OnlyWrittenFrames SyncFreeGarbageCostsNothing\nCHECK_DEADLOCK FALSE\n")
+    cp = write_text(os.path.join(wd, "MCSS.cfg"), consts % 3 + "SPECIFICATION Spec\n" + INV + "CHECK_DEADLOCK FALSE\n")
     r = tlc_model_check(mp, cp, wd, workers=8)
     states, trans = r["distinct"], r["generated"]
-    log("[%s] TLC: StreamSync %d states, %d transitions (3 frames, %d garbage strings in each of 4 gaps)" % (pid, states, trans, len(gs)))
+    # the source may answer refills with errors (Interrupted / transient): 2 frames, up to 2 such answers; the two ways of mishandling
+    # them are refuted (non-vacuity)
+    small = gs[:8]
+    for name, defects, fail in (("MCSF", [], False), ("NVSI", ["interrupted_rescans"], True), ("NVSE", ["header_io_error_swallowed"], True)):
+        mpf = write_text(os.path.join(wd, name + ".tla"), "---- MODULE %s ----\nEXTENDS StreamSync\ncG == %s\ncD == %s\n====\n" % (name, gtla(small), tla_set(defects)))
+        cpf = write_text(os.path.join(wd, name + ".cfg"), (consts % 2).replace("MaxFaults = 0", "MaxFaults = 2") + "SPECIFICATION Spec\n" + INV + "CHECK_DEADLOCK FALSE\n")
+        if fail:
+            expect_model_violation(mpf, cpf, wd, what="StreamSync with " + defects[0])
+        else:
+            rf = tlc_model_check(mpf, cpf, wd, workers=8)
+            states += rf["distinct"]
+            trans += rf["generated"]
+    log("[%s] TLC: StreamSync %d states, %d transitions (3 frames, %d garbage strings in each of 4 gaps; 2 frames with up to 2 source errors); "
+        "interrupted-rescans and swallowed-header-error variants refuted" % (pid, states, trans, len(gs)))
     # generator: 2 frames, all garbage combinations (14^3) in quick; 3 frames sampled in thorough
     nfr = 2
     gp = write_text(os.path.join(wd, "GSS.tla"), "---- MODULE GSS ----\nEXTENDS Gen_StreamSync\ncG == %s\ncD == {}\n====\n" % gtla(gs))
@@ -72,6 +86,15 @@ def run(pid):
             frs.append({"rate": rnd.choice(rates), "channels": ch, "bps": bps, "len": ln + (k % 2), "seed": 3000 * k + j, "signal": sig})
         arrangements.append({"id": 200100 + k, "frames": frs, "garbage": [[] for _ in range(len(frs) + 1)], "pred": [],
                              "chunkings": [[], [5]], "log_frames": k < 7, "sessions": [len(frs)]})
+    # a source that answers one refill with Interrupted / a transient error: every refill of the fault-free run in turn, tiny frames,
+    # buffer sizes that cut inside the sync code, clean and sync-free-garbage concatenations (ids 300000..)
+    for k in range(6 if t == "quick" else 40):
+        nfr_ = rnd.randint(2, 4)
+        frs = [{"rate": rnd.choice(rates), "channels": rnd.choice([1, 2]), "bps": rnd.choice([8, 16]), "len": rnd.choice([1, 2, 5]), "seed": 5000 * k + j,
+                "signal": rnd.choice(["walk", "noise", "zero"])} for j in range(nfr_)]
+        garb = [[] if k % 2 == 0 else [rnd.choice(["x", "S", "x"]) for _ in range(rnd.randint(0, 3))] for _ in range(nfr_ + 1)]
+        arrangements.append({"id": 300000 + k, "frames": frs, "garbage": garb, "pred": [], "chunkings": [[1], [2], [3], [5, 1]], "log_frames": False,
+                             "fault_sweep": True, **({"sessions": [nfr_]} if k % 3 == 0 else {})})
     # impl -> spec: long clean and dirty concatenations with random garbage bytes (pred unknown: <<-1>>)
     toks = ["FF", "S", "x", "x", "x"]
     for i in range(60 if t == "quick" else 8000):
@@ -102,7 +125,7 @@ def run(pid):
 
     outs = parallel(drive, [(i, p) for i, p in enumerate(parts) if p], n=8)
     spec, cfg = os.path.join(SPEC, "Trace_StreamSync.tla"), os.path.join(SPEC, "Trace_StreamSync.cfg")
-    nruns = drift = nframes_checked = 0
+    nruns = drift = nframes_checked = growth = 0
     for tp, tr in parallel(lambda o: (o[0], tlc_trace(spec, cfg, o[0], wd, timeout=3000)), outs, n=8):
         recs = read_ndjson(tp)
         nruns += sum(1 for e in recs if e["ev"] == "arr")
@@ -115,6 +138,11 @@ def run(pid):
             line, rule = int(m.group(2)), m.group(3)
             e = recs[line - 1]
             slim = {k: e[k] for k in e if k not in ("bytes", "samples")}
+            if rule.startswith("growth."):
+                # beyond C16's statement (the clause is C13's, gated there): reported, never a violation of this check
+                growth += 1
+                log("GROWTH-SPEC-MISMATCH %s: %s" % (rule, json.dumps(slim)[:300]))
+                continue
             sig = "%s rule=%s %s" % (pid, rule, "chunked" if slim.get("chunks") else "unchunked")
             v.violation(sig, "rule %s fails: %s" % (rule, json.dumps(slim)[:700]), {"trace": tp, "event": slim})
         drift += len(tr["drifts"])
@@ -129,7 +157,8 @@ def run(pid):
                 "(sampled in quick) is rendered with real FlacStreamWriter frames of independently varying rate / channels / depth / length and "
                 "read back under several segmentations of the buffered source incl. 1-byte buffers (a split inside the sync code); plus long "
                 "clean / sync-free / dirty concatenations; emitted frames are decoded from their own header by FlacFormat",
-        "frames_checked_by_format_model": nframes_checked, "spec_drift_notes": drift,
+        "frames_checked_by_format_model": nframes_checked, "spec_drift_notes": drift, "growth_mismatches": growth,
+        "source_fault_runs": sum(1 for a in arrangements if a.get("fault_sweep")),
         "known_findings_hit": {k: n for k, (kk, n) in v.known_hits.items()}},
         time.time() - t0, len(v.violations),
         ["TLC/SANY, CommunityModules", "frame payload bytes that happen to look like a sync code are not modelled (only matters after sync was lost)"])
